@@ -326,6 +326,89 @@ theorem C10_format_conflict_rejected (ms : List Flat) (m₁ m₂ : Flat) (h₁ :
         · exact hall _ h
       exact hne (f1.trans f2.symm)
 
+mutual
+theorem resolve_props : ∀ (s : Sch) (r : Flat), resolve s = .ok r →
+    ∀ k, (k ∈ keys r.props ↔ ∃ l ∈ leaves s, k ∈ keys l.props) ∧ (k ∈ r.required ↔ ∃ l ∈ leaves s, k ∈ l.required)
+  | .mk f [], r, h, k => by
+    simp only [resolve, Except.ok.injEq] at h; subst h
+    simp [leaves]
+  | .mk f (m :: ms), r, h, k => by
+    simp only [resolve] at h
+    have := resolveFrom_props zero (m :: ms) r h k
+    simpa [leaves, zero, keys] using this
+theorem resolveFrom_props : ∀ (acc : Flat) (ss : List Sch) (r : Flat), resolveFrom acc ss = .ok r →
+    ∀ k, (k ∈ keys r.props ↔ k ∈ keys acc.props ∨ ∃ l ∈ leavesL ss, k ∈ keys l.props) ∧
+         (k ∈ r.required ↔ k ∈ acc.required ∨ ∃ l ∈ leavesL ss, k ∈ l.required)
+  | acc, [], r, h, k => by
+    simp only [resolveFrom, Except.ok.injEq] at h; subst h
+    simp [leavesL]
+  | acc, s :: rest, r, h, k => by
+    simp only [resolveFrom] at h
+    split at h
+    · cases h
+    · rename_i r0 hr0
+      split at h
+      · cases h
+      · rename_i a ha
+        have h1 := resolve_props s r0 hr0 k
+        have h2 := resolveFrom_props a rest r h k
+        have hm := merge2_ok ha
+        rw [h2.1, h2.2, hm.1, hm.2.1, mem_keys_mergeProps, List.mem_append, h1.1, h1.2]
+        simp only [leavesL, List.mem_append]
+        constructor
+        · constructor
+          · rintro ((a | ⟨l, hl, hk⟩) | ⟨l, hl, hk⟩)
+            · exact Or.inl a
+            · exact Or.inr ⟨l, Or.inl hl, hk⟩
+            · exact Or.inr ⟨l, Or.inr hl, hk⟩
+          · rintro (a | ⟨l, hl | hl, hk⟩)
+            · exact Or.inl (Or.inl a)
+            · exact Or.inl (Or.inr ⟨l, hl, hk⟩)
+            · exact Or.inr ⟨l, hl, hk⟩
+        · constructor
+          · rintro ((a | ⟨l, hl, hk⟩) | ⟨l, hl, hk⟩)
+            · exact Or.inl a
+            · exact Or.inr ⟨l, Or.inl hl, hk⟩
+            · exact Or.inr ⟨l, Or.inr hl, hk⟩
+          · rintro (a | ⟨l, hl | hl, hk⟩)
+            · exact Or.inl (Or.inl a)
+            · exact Or.inl (Or.inr ⟨l, hl, hk⟩)
+            · exact Or.inr ⟨l, hl, hk⟩
+end
+
+
+/-- allOf is transitive: with nested allOf members the merged type has exactly the union of the properties of all
+transitively flattened members, and a property is required iff some leaf requires it (a member that carries a
+nested allOf contributes its nested members, not its own attributes — stated as the code behaves). -/
+theorem C10_nested_flattened (ms : List Sch) (r : Flat) (h : mergeTop ms = .ok r) (k : String) :
+    (k ∈ keys r.props ↔ ∃ l ∈ leavesL ms, k ∈ keys l.props) ∧ (k ∈ r.required ↔ ∃ l ∈ leavesL ms, k ∈ l.required) := by
+  cases ms with
+  | nil => simp [mergeTop] at h; subst h; simp [leavesL, zero, keys]
+  | cons m rest =>
+    simp only [mergeTop] at h
+    split at h
+    · cases h
+    · rename_i a ha
+      have h1 := resolve_props m a ha k
+      have h2 := resolveFrom_props a rest r h k
+      rw [h2.1, h2.2, h1.1, h1.2]
+      simp only [leavesL, List.mem_append]
+      constructor
+      · constructor
+        · rintro (⟨l, hl, hk⟩ | ⟨l, hl, hk⟩)
+          · exact ⟨l, Or.inl hl, hk⟩
+          · exact ⟨l, Or.inr hl, hk⟩
+        · rintro ⟨l, hl | hl, hk⟩
+          · exact Or.inl ⟨l, hl, hk⟩
+          · exact Or.inr ⟨l, hl, hk⟩
+      · constructor
+        · rintro (⟨l, hl, hk⟩ | ⟨l, hl, hk⟩)
+          · exact ⟨l, Or.inl hl, hk⟩
+          · exact ⟨l, Or.inr hl, hk⟩
+        · rintro ⟨l, hl | hl, hk⟩
+          · exact Or.inl ⟨l, hl, hk⟩
+          · exact Or.inr ⟨l, hl, hk⟩
+
 /-- Before the repair an untyped first member hid the type of the second from the third: `[untyped, object,
 string]` merged without an error while `[object, string, untyped]` was rejected (reproduced; `fixed:`). -/
 theorem C10_old_type_rule_witness :
